@@ -220,6 +220,10 @@ def modelOp (op : List String) : Option Outcome :=
       | "CHECK_C" => some (CHECK_C x.val)
       | _ => none
     | none => none
+  | ["boolx", m, o, a, b] =>
+    match condOp? o, cint? "i32" a, cint? "i32" b with
+    | some op, some x, some y => boolxMacro (baseName m) op x.val y.val
+    | _, _, _ => none
   | ["dbl", m, e, a, t] =>
     match dbl? e, dbl? a, dbl? t with
     | some e, some a, some t =>
@@ -375,6 +379,24 @@ def demandOp (op : List String) : Option Demand :=
       | "CHECK_C" => some { fails := some (wrapS 32 x.val == 0), counted := 1 }
       | _ => none
     | none => none
+  | ["boolx", m, o, a, b] =>
+    -- the predicate the WHOLE condition names, on the two integers (written here directly, not through the model)
+    match a.toInt?, b.toInt? with
+    | some x, some y =>
+      let whole : Option Bool :=
+        match o with
+        | "or" => some (x != 0 || y != 0)
+        | "and" => some (x != 0 && y != 0)
+        | "eq" => some (x == y)
+        | "ne" => some (x != y)
+        | "lt" => some (decide (x < y))
+        | "cond" => some (if x != 0 then y != 0 else false)
+        | _ => none
+      match whole, baseName m with
+      | some p, "CHECK" | some p, "CHECK_TRUE" | some p, "CHECK_C" => some { fails := some (!p), counted := 1 }
+      | some p, "CHECK_FALSE" => some { fails := some p, counted := 1 }
+      | _, _ => none
+    | _, _ => none
   | ["dbl", m, e, a, t] =>
     match dbl? e, dbl? a, dbl? t with
     | some e, some a, some t =>
